@@ -1502,6 +1502,14 @@ func (is *iterScanner) Next() bool {
 }
 
 func scanColumn(p []byte, col ColumnInfo, dest []interface{}) (int, error) {
+	if len(dest) == 0 {
+		// only a tuple without components scans into no destination at all
+		if tuple, ok := col.TypeInfo.(TupleTypeInfo); ok && len(tuple.Elems) == 0 {
+			return 0, nil
+		}
+		return 0, errors.New("gocql: not enough columns to scan into")
+	}
+
 	if dest[0] == nil {
 		return 1, nil
 	}
@@ -1511,6 +1519,9 @@ func scanColumn(p []byte, col ColumnInfo, dest []interface{}) (int, error) {
 		tuple := col.TypeInfo.(TupleTypeInfo)
 
 		count := len(tuple.Elems)
+		if count > len(dest) {
+			return 0, errors.New("gocql: not enough columns to scan into")
+		}
 		// here we pass in a slice of the struct which has the number number of
 		// values as elements in the tuple
 		if err := Unmarshal(col.TypeInfo, p, dest[:count]); err != nil {
